@@ -114,6 +114,39 @@ def check(ctx, case, obs):
                              C.dict_diff(unwire(w2), unwire(r["dump"])), "see diff (impl vs model)")
         else:
             ctx.count("model:fromjson:unsupported")
+        # the builder model extended by survey-level `choices` (FromJsonChoices.lean, theorem
+        # dump_stable_tree_choices): same comparison; counted apart so that the share of forms inside the
+        # enlarged fragment shows next to the share inside `fromJson`'s
+        import inspect as _inspect
+
+        from pyxform.question import Option as _Option
+
+        _ctor = [k for k, v in _inspect.signature(_Option.__init__).parameters.items()
+                 if k != "self" and v.kind is not _inspect.Parameter.VAR_KEYWORD]
+        rc = ctx.driver.call("tojson.reload_tree_choices", d=want, names=_ctor)
+        if rc.get("ok"):
+            ctx.count("model:fromjson-choices:answered")
+            w2 = C.enc(jsonable(obs["j2"]))
+            if rc["dump"] != w2:
+                ctx.mismatch("ToJson.toJson (fromJsonC dump) vs dump of the reloaded survey", case,
+                             C.dict_diff(unwire(w2), unwire(rc["dump"])), "see diff (impl vs model)")
+        else:
+            ctx.count("model:fromjson-choices:unsupported")
+            if r.get("ok"):
+                ctx.mismatch("fromJsonC rejects a dict fromJson accepts", case, "ok", "unsupported")
+        # the builder model with the choices context (FromJsonSelects.lean: selects that carry their options get
+        # the survey-level Itemset); tied by this stream only (no theorem yet)
+        rs = ctx.driver.call("tojson.reload_tree_selects", d=want, names=_ctor)
+        if rs.get("ok"):
+            ctx.count("model:fromjson-selects:answered")
+            w2 = C.enc(jsonable(obs["j2"]))
+            if rs["dump"] != w2:
+                ctx.mismatch("ToJson.toJson (fromJsonS dump) vs dump of the reloaded survey", case,
+                             C.dict_diff(unwire(w2), unwire(rs["dump"])), "see diff (impl vs model)")
+        else:
+            ctx.count("model:fromjson-selects:unsupported")
+            if rc.get("ok"):
+                ctx.mismatch("fromJsonS rejects a dict fromJsonC accepts", case, "ok", "unsupported")
     # options: model dump / reload / dump against the implementation's Option(**dump).to_json_dict()
     import inspect
 
